@@ -42,6 +42,7 @@ func (m *Mutex) Unlock() {
 		return
 	}
 	if vsched.Aborting() {
+		m.locked = false // teardown: release without scheduling so that long-lived objects are left clean
 		return
 	}
 	vsched.SyncOp(m, true, "unlock", nil)
@@ -72,6 +73,7 @@ func (m *RWMutex) Unlock() {
 		return
 	}
 	if vsched.Aborting() {
+		m.writer = false
 		return
 	}
 	vsched.SyncOp(m, true, "wunlock", nil)
@@ -96,6 +98,9 @@ func (m *RWMutex) RUnlock() {
 		return
 	}
 	if vsched.Aborting() {
+		if m.readers > 0 {
+			m.readers--
+		}
 		return
 	}
 	vsched.SyncOp(m, true, "runlock", nil)
